@@ -1,0 +1,90 @@
+//go:build verif
+
+package inactivity
+
+import (
+	"context"
+
+	"github.com/ipfs/go-log/v2"
+
+	"github.com/keep-network/keep-core/pkg/net"
+	"github.com/keep-network/keep-core/pkg/protocol/group"
+	"github.com/keep-network/keep-core/pkg/protocol/state"
+)
+
+// Verification hook (build tag verif, property C13): drives the existing
+// claim signing, signatures verification and claim submission states one
+// after another and re-exports what they computed. No protocol logic is added.
+
+func VerifC13RunPublication(
+	ctx context.Context,
+	logger log.StandardLogger,
+	self group.MemberIndex,
+	grp *group.Group,
+	membershipValidator *group.MembershipValidator,
+	sessionID string,
+	channel net.BroadcastChannel,
+	claimSigner ClaimSigner,
+	claimSubmitter ClaimSubmitter,
+	claim *ClaimPreimage,
+	messages []net.Message,
+) ([]byte, map[group.MemberIndex][]byte, error, error) {
+	member := &signingMember{
+		logger:              logger,
+		memberIndex:         self,
+		group:               grp,
+		membershipValidator: membershipValidator,
+		sessionID:           sessionID,
+	}
+	signingState := &claimSigningState{
+		BaseAsyncState: state.NewBaseAsyncState(),
+		channel:        channel,
+		claimSigner:    claimSigner,
+		claimSubmitter: claimSubmitter,
+		member:         member,
+		claim:          claim,
+	}
+	if err := signingState.Initiate(ctx); err != nil {
+		return nil, nil, nil, err
+	}
+	for _, message := range messages {
+		if err := signingState.Receive(message); err != nil {
+			return nil, nil, nil, err
+		}
+	}
+	next, err := signingState.Next()
+	if err != nil {
+		return nil, nil, nil, err
+	}
+	verificationState := next.(*signaturesVerificationState)
+	if err := verificationState.Initiate(ctx); err != nil {
+		return nil, nil, nil, err
+	}
+	next, err = verificationState.Next()
+	if err != nil {
+		return nil, nil, nil, err
+	}
+	submissionState := next.(*claimSubmissionState)
+	submitErr := submissionState.Initiate(ctx)
+
+	return member.selfInactivityClaimSignature,
+		verificationState.validSignatures,
+		submitErr,
+		nil
+}
+
+func VerifC13NewMessage(
+	senderID group.MemberIndex,
+	claimHash ClaimHash,
+	signature []byte,
+	publicKey []byte,
+	sessionID string,
+) net.TaggedMarshaler {
+	return &claimSignatureMessage{
+		senderID:  senderID,
+		claimHash: claimHash,
+		signature: signature,
+		publicKey: publicKey,
+		sessionID: sessionID,
+	}
+}
